@@ -98,7 +98,7 @@ def gen_extract(rnd, pack='*', with_defs=False):
     for _ in range(rnd.randint(2, 10)):
         ctx = rnd.choice(['top', 'top', 'top', 'text', 'text', 'unkarg', 'unkenv', 'knownenv', 'removedenv', 'item', 'comment',
                           'skip', 'verb', 'verbatim', 'unlisted', 'group', 'declarg', 'cell', 'usermacarg', 'math',
-                          'defarg', 'defbody', 'newcmd'])
+                          'defarg', 'defbody', 'newcmd', 'mathtext'])
         if ctx in ('declarg', 'newcmd') and ctx != kfmode:
             ctx = 'top'
         if with_defs and ctx == 'text' and rnd.random() < .5:
@@ -237,6 +237,14 @@ def gen_extract(rnd, pack='*', with_defs=False):
             in_decl[0] = False
             emit('}')
             kf[0] += 1
+        elif ctx == 'mathtext':
+            # a text part inside a formula is ordinary text
+            a, b = rnd.choice([('\\[ a = b \\mbox{ ', ' } \\]'), ('$$ x \\mbox{', '} $$'), ('$y \\mbox{', '}$'),
+                               ('\\begin{equation} a \\mbox{ for ', '} \\end{equation}')]
+                              + ([('\\begin{align} a &= b \\text{ ', '} \\\\ c &= d \\end{align}')] if pack == '*' else []))
+            emit(a)
+            listed_call(True)
+            emit(b)
         elif ctx == 'math':
             emit('$a ')
             listed_call(False)
@@ -331,6 +339,10 @@ class C18(core.Check):
             extra['defs'] = ('\\newcommand{\\ydefd}{x}\n\\%s{hdefaQ hdefbQ}\n\\zzfoo{\\%s{hdefcQ}}\n\\def\\ydd{ydefdz}\n'
                              % (first, first))
             cnt['extract_with_defs'] = 1
+        if case['s'] % 4 < 2:
+            # (simple replacements for displayed equations: no influence on what is extracted)
+            extra['seqs'] = True
+            cnt['extract_with_seqs'] = 1
         (t, p), err = tex.run(src, extr=extr, pack=case['pack'], lang=case['lang'], nosp=case['nosp'], **extra)
         obs = [(c, q) for c, q in zip(t, p) if not c.isspace()]
         want = [(c, None if off is None else off + i + 1) for w, off in exp for i, c in enumerate(w)]
@@ -480,7 +492,7 @@ class C18(core.Check):
              'with_define_file': 15, 'with_path_prefix': 30, 'with_reference_in_skipped_region': 30, 'with_no_specials': 20,
              'with_self_inclusion': 20, 'include_rand': 30}
         for c in ('top', 'unkarg', 'unkenv', 'knownenv', 'removedenv', 'item', 'comment', 'skip', 'verb', 'verbatim', 'group',
-                  'cell', 'usermacarg'):
+                  'cell', 'usermacarg', 'mathtext'):
             q['ctx_' + c] = 200
         if tier == 'thorough':
             q['include_exh3'] = 512
